@@ -459,7 +459,8 @@ class Task:
     run(interp, ctx) executes the real function on symbolic inputs on the path given by
     ctx.decisions and records every obligation (including the postcondition) in ctx."""
 
-    def __init__(self, name, run, props=(), check_defined=False, canary=None, func=None, config=None):
+    def __init__(self, name, run, props=(), check_defined=False, canary=None, func=None, config=None, bounded=None):
+        self.bounded = bounded  # text of the bound if this task covers only a bounded family of inputs
         self.name, self.run, self.props = name, run, tuple(props)
         self.check_defined = check_defined
         self.canary = canary
